@@ -5,6 +5,16 @@ V = os.path.dirname(os.path.dirname(os.path.abspath(__file__)))
 props = [json.loads(l) for l in open(os.path.join(V, "properties.jsonl"))]
 TB = "Trusted: rustc's MIR construction and type checking (nightly 1.97, mir-opt-level=0), the checker's own abstract interpreter / rule code (validated against seeded mutants and benign edits), std collection semantics."
 CLAIMS = {
+ "C08": dict(
+   technique="abstract interpretation of MIR: element decision tables (4 x 17 cells) and container dispatch vs spec tables; visit-sequence extraction of the type walker with an inductive depth argument",
+   text="Static, exhaustive over categories: the four element checkers are tabulated from MIR for all 17 type categories (68 cells: exactly one Error on the element for a rejected one, nothing for an accepted one) and check_container's dispatch over kind x arity; the claim 'every container anywhere, at any depth' is decided by extracting the visit sequence of traverse::walk_types for every item/member configuration (every type-bearing field of the AST ADTs must appear) and proving the inductive step of its recursive helper (visit t, recurse on each generic parameter).",
+   note=TB + " Assumes std iterators visit every element once in order; category of a source type is C05's business.",
+   design="DESIGN.md section 4, C08"),
+ "C10": dict(
+   technique="abstract interpretation of MIR (decision-table extraction through the iterator chain) vs the table the statement gives; dominator-based order and guard rule",
+   text="Static, exhaustive: set_up_oneway_interface is tabulated over interface.oneway x member variant x method.oneway (effects: Warning on the redundant keyword / the single assignment method.oneway = true / nothing), check_method over method.oneway x 17 return-type categories (one Error on the return type iff oneway and not void), and the per-file pipeline is checked to run the propagation strictly before the method checks, guarded only by the item being an interface.",
+   note=TB + " Keyword presence and oneway_range wiring are decided by the grammar rules (C02/C04).",
+   design="DESIGN.md section 4, C10"),
  "C07": dict(
    technique="abstract interpretation of MIR over the finite type-category domain (decision-table extraction) compared with a spec table; dominator-based call-order rule",
    text="Static, exhaustive over the property's own quantifier: the per-argument decision table of check_method_args (with get_requirement_for_arg_direction inlined) is extracted from the type-checked MIR for all 17 type categories x 4 directions x method-oneway (136 cells) and compared cell by cell (number of Errors, their kind and the provenance of their range) with a table transcribed from the statement; pipeline order (resolve_types < set_up_oneway_interface < check_methods) is decided on the CFG. No code of the repository is executed.",
